@@ -3,7 +3,7 @@ import enum
 import random
 import types as pytypes
 
-from .. import build, env, gen, monitors, snapshot, spec, workload
+from .. import build, env, gen, iffparse, monitors, snapshot, spec, workload
 from . import c06
 
 PROPERTY = "C17"
@@ -297,6 +297,34 @@ def run_type(res, T, spec_, rng, sentinels):
             differential(res, api.Synth(C4), whole, "deepcopy-of-wired", T, rng, spec_["edits"], desc)
             C5 = copy.deepcopy(A4)
             differential(res, api.Synth(A4), api.Synth(C5), "deepcopy-of-wired-reverse", T, rng, spec_["edits"] // 2, desc)
+    # files with out-of-range values of this type are loaded (leniently, by design); a bystander made BEFORE and one made AFTER
+    # still refuse those values
+    if witness is not None:
+        from rv.errors import ControllerValueError as _CVE
+        ranged = [sc for sc in t.controllers if sc.kind in ("range", "compact") and sc.attached]
+        if ranged:
+            sc = ranged[len(T) % len(ranged)]
+            try:
+                chunks_ = [(c_[0], c_[1]) for c_ in iffparse.parse(api.Synth(cls()).read())]
+                cv = [k for k, c_ in enumerate(chunks_) if c_[0] == b"CVAL"]
+                pos = [c_.name for c_ in t.controllers if c_.attached].index(sc.name)
+                big = sc.max + 2000
+                chunks_[cv[pos]] = (b"CVAL", __import__("struct").pack("<i", big - sc.min if sc.min < 0 else big))
+                workload.load(iffparse.build(chunks_))
+                res.count("out_of_range_files_loaded_next_to_bystanders")
+                for who, inst in (("made before", witness), ("made after", cls())):
+                    for probe in (big, sc.max + 1):
+                        try:
+                            setattr(inst, sc.name, probe)
+                        except _CVE:
+                            continue
+                        except Exception:
+                            continue
+                        res.violation(f"C17:leak:{T}:class-level:range-widened", f"after a file holding {T}.{sc.name} = {big} was loaded, a bystander {T} ({who}) accepts {sc.name} = {probe} "
+                                                                               f"(range {sc.min}..{sc.max})", desc)
+                        break
+            except Exception:
+                res.count("out_of_range_bystander_probe_unusable")
     # what the CLASS shows (and a bystander instance made before all this) is as it was
     res.count("class_level_comparisons")
     class_after = class_level_state(cls)
@@ -399,6 +427,28 @@ def run_containers(res, spec_, rng):
             alias_scan(res, A_, B_, f"Pattern:{how}", {"type": "Pattern", "copy": how})
             pattern_differential(res, A_, B_, how, rng, {"type": "Pattern", "copy": how, "attached": attached})
             pattern_differential(res, B_, A_, how + "-reverse", rng, {"type": "Pattern", "copy": how, "attached": attached})
+    # a song with several patterns holding the SAME notes (a chorus entered twice), and modules holding the same curves, loaded
+    # from a file / cloned: each pattern, each module has its own copy
+    twin_p = api.Project()
+    for k in range(3):
+        q = api.Pattern(tracks=2, lines=4, name=f"chorus {k}")
+        for ln in range(4):
+            q.data[ln][ln % 2].note, q.data[ln][ln % 2].vel, q.data[ln][ln % 2].module = api.NOTECMD(13 + ln), 100, 2
+        twin_p.attach_pattern(q)
+    for k in range(2):
+        ws = twin_p.new_module(api.m.WaveShaper)
+        ws.curve.values = [(i * 37) % 65536 for i in range(256)]
+    for how in ("loaded", "cloned"):
+        L = workload.load(twin_p.read()) if how == "loaded" else twin_p.clone()
+        res.count("twin_content_projects")
+        alias_scan(res, L.patterns[0], L.patterns[1], f"Pattern:twins:{how}", {"type": "Pattern", "how": how})
+        alias_scan(res, L.modules[1], L.modules[2], f"WaveShaper:twins:{how}", {"type": "WaveShaper", "how": how})
+        before_tw = (L.patterns[1].raw_data, L.patterns[2].raw_data, list(L.modules[2].curve.values))
+        L.patterns[0].data[0][0].vel = 7
+        L.patterns[0].data[1][1].note = api.NOTECMD(60)
+        L.modules[1].curve.values[5] = 1
+        if (L.patterns[1].raw_data, L.patterns[2].raw_data, list(L.modules[2].curve.values)) != before_tw:
+            res.violation(f"C17:leak:twins:{how}", f"a {how} project with patterns / modules of identical content: editing the first one changed another one", {"how": how})
     # a MultiCtl whose routing is taken over from another one (`mappings=` given the other's table, its Mapping objects or plain
     # tuples): if the library accepts that, the two are independent afterwards
     from rv.modules.multictl import MultiCtl as _MC
